@@ -672,7 +672,11 @@ impl Check {
     /// Every Unicode scalar value, raw and percent-encoded in both hex cases, in each of the five
     /// component positions of a parsed string (and in a typed name).
     pub fn scalar_position_stage(&mut self, ascii_only: bool) {
-        let se = StringEval { prop: self.prop, mon: monitors_for(self.prop) };
+        // (C06 runs every monitor on the lenses; on the 2*10^7 strings of this stage it makes the calls
+        // whose panics it is about - parse x3, format, Debug, clone, re-build, typed checksum - and
+        // leaves the value comparisons to the checks of the other properties, which run the same strings)
+        let mon = if self.prop == "C06" { M06 | M12 } else { monitors_for(self.prop) };
+        let se = StringEval { prop: self.prop, mon };
         let t0 = Instant::now();
         // (component positions, and the positions where only a few ASCII characters are legal: type and qualifier key)
         let frames: [(&str, &str); 11] = [("pkg:t/", "/n"), ("pkg:t/x", ""), ("pkg:t/n@1", ""), ("pkg:t/n?k=v", ""), ("pkg:t/n#s/", "/t"), ("pkg:nuget/A", ""), ("pkg:", "/n"), ("pkg:t", "x/n"), ("pkg:t/n?", "=v"), ("pkg:t/n?k", "z=v"), ("pkg:t/n?checksum=", ":00")];
